@@ -11,6 +11,8 @@ R-SOLVERDISPATCH get_closest_point_to_origin hands Y[0..k-1] in order to the k-p
 """
 import ast
 
+from ..core.inline import expand_helpers
+
 from ..core.astutil import u, call_name, calls, iter_stmts, const, parent_map, ncmp, dot_args, index_elts
 from ..core.index import AnalysisError
 
@@ -97,8 +99,9 @@ def r_bitmap(idx, rep, rule="R-BITMAP"):
                 rep.bad(rule, key + " remap", where, "no remap of the sub-solver mask `%s` into `%s` follows this call" % (mtgt, final_mask))
                 continue
             bad = []
+            remap_value = expand_helpers(idx, f.module, remap.value)      # the remap may have been extracted into a helper
             for mask in range(1, 2 ** n):
-                got = eval_int(remap.value, {mtgt: mask})
+                got = eval_int(remap_value, {mtgt: mask})
                 want = sum(((mask >> i) & 1) << bit[args[i]] for i in range(n))
                 if got != want:
                     bad.append((mask, got, want))
